@@ -46,7 +46,11 @@ def natList (j : Json) (k : String) : Except String (List Nat) := do
     | .error _ => throw s!"field {k}: expected nat list"
 
 def parseMethodInfo (j : Json) : Except String MethodInfo := do
-  pure { name := ← getStr j "name", nparams := ← getNat j "nparams", results := ← natList j "results" }
+  let flag := fun (k : String) => match j.getObjVal? k with
+    | .ok (.bool b) => b
+    | _ => false
+  pure { name := ← getStr j "name", nparams := ← getNat j "nparams", results := ← natList j "results",
+         ptrRecv := flag "ptrRecv", needsAddr := flag "needsAddr" }
 
 def parseLookup (j : Json) : Except String Lookup := do
   match ← getStr j "k" with
